@@ -444,6 +444,16 @@ def directed(rng, tier):
             add([[('r', n)]], "nest-depth3")
             n = OPS[op3](('p', OPS['i'](('p', U(('p', I(atom(0, 40), ats[0])), ats[1])), ats[2])), ats[3])
             add([[('r', n)]], "nest-depth3")
+    # an EMPTY operand (disjoint intersection) that carries the only marker: "ignore empty
+    # constraints in OR logic" must still take its flag (second / third position; an empty
+    # FIRST operand is the recorded deviation C09-empty-union-operand)
+    for m1 in (False, True):
+        for m2 in (False, True):
+            emp = I(atom(1, 2, m1), atom(7, 8, m2))
+            add([[('r', U(atom(1, 5), emp))]], "nest-empty-operand")
+            add([[('r', U(U(atom(1, 5), emp), atom(9, 9)))]], "nest-empty-operand")
+            add([[('r', U(U(atom(1, 5), atom(9, 9)), emp))]], "nest-empty-operand")
+            add([[('r', U(atom(1, 5), ('p', U(atom(12, 13), emp))))]], "nest-empty-operand")
     # serial application and reference chains: the nested marker in the last / a non-last constraint
     for order in (0, 1):
         A, B = atom(1, 5, True), atom(7, 9)
